@@ -77,7 +77,7 @@ struct GridDom {
   // doc/definitions.dox (Grid Widening Operators): "The third widening uses either the congruence or the generator widening,
   // the exact rule governing this choice at the time of the call is left to the implementation": the result of
   // widening_assign may depend on the representation, but it must be one of the two.
-  std::string repdep_caveat(const std::string& op, const RGrid&, const RGrid&, const std::string&, const std::string&) const {
+  std::string repdep_caveat(const std::string& op, const RGrid&, const RGrid&, const std::string&, const std::string&, const std::string&) const {
     return op == "widening_assign" ? "grid_widening_assign_choice_left_to_implementation" : "";
   }
   std::string repdep_trigger(const Grid&, const Grid&, const Grid&, const Grid&) const { return "none"; }
